@@ -142,7 +142,7 @@ func zzNewWorld() *zzWorld { return &zzWorld{flows: map[int]*zzFlowState{}} }
 
 // zzScriptedFromPcap stands in for Builder.FromPcap (cgo libpcap): it writes,
 // with the real Writer, the index the importer would produce.
-func zzScriptedFromPcap(mgr *Manager) func(pcapDir string, filenames []string, existing []*index.Reader) (int, uint64, []*index.Reader, *bitmask.LongBitmask, *bitmask.LongBitmask, *bitmask.LongBitmask, error) {
+func zzScriptedFromPcap(indexDir string) func(pcapDir string, filenames []string, existing []*index.Reader) (int, uint64, []*index.Reader, *bitmask.LongBitmask, *bitmask.LongBitmask, *bitmask.LongBitmask, error) {
 	return func(pcapDir string, filenames []string, existing []*index.Reader) (int, uint64, []*index.Reader, *bitmask.LongBitmask, *bitmask.LongBitmask, *bitmask.LongBitmask, error) {
 		upd, reset, add := &bitmask.LongBitmask{}, &bitmask.LongBitmask{}, &bitmask.LongBitmask{}
 		before := zzImported.nextID
@@ -176,7 +176,7 @@ func zzScriptedFromPcap(mgr *Manager) func(pcapDir string, filenames []string, e
 		if len(touchedAll) == 0 {
 			return len(filenames), 0, nil, upd, reset, add, nil
 		}
-		w, err := index.NewWriter(tools.MakeFilename(mgr.IndexDir, "idx"))
+		w, err := index.NewWriter(tools.MakeFilename(indexDir, "idx"))
 		if err != nil {
 			return len(filenames), 0, nil, upd, reset, add, err
 		}
@@ -232,7 +232,7 @@ func zzService(captures []zzCapture) *Manager {
 		mgr.IndexDir = mgr.StateDir + "/idx"
 		const b = "(*github.com/spq/pkappa2/internal/index/builder.Builder)."
 		zz.Override(b+"FromPcap", func(_ any, pcapDir string, filenames []string, existing []*index.Reader) (int, uint64, []*index.Reader, *bitmask.LongBitmask, *bitmask.LongBitmask, *bitmask.LongBitmask, error) {
-			return zzScriptedFromPcap(mgr)(pcapDir, filenames, existing)
+			return zzScriptedFromPcap(mgr.IndexDir)(pcapDir, filenames, existing)
 		})
 		zz.Override(b+"KnownPcaps", func(_ any) []*pcapmetadata.PcapInfo { return nil })
 		zz.Override(b+"PacketCount", func(_ any) uint { return 0 })
@@ -297,16 +297,12 @@ func zzCheckQuiescent(mgr *Manager, model *zzWorld, label string) {
 		}
 	})
 	var onDisk []string
-	for _, f := range zz.FSFiles() {
-		if filepath.Ext(f) == ".idx" {
-			onDisk = append(onDisk, filepath.Base(f))
+	for _, f := range zz.FSList(mgr.IndexDir) {
+		if f == zzHalfWritten {
+			continue // left behind by a killed writer: not served, nobody's to delete (C12)
 		}
-	}
-	if !zz.Symbolic() {
-		ents, _ := os.ReadDir(mgr.IndexDir)
-		onDisk = nil
-		for _, e := range ents {
-			onDisk = append(onDisk, e.Name())
+		if filepath.Ext(f) == ".idx" || !zz.Symbolic() {
+			onDisk = append(onDisk, f)
 		}
 	}
 	var servedBase []string
@@ -389,6 +385,9 @@ func zzStdCaptures() []zzCapture {
 }
 
 var zzThreshold int
+
+// zzHalfWritten: base name of an index file a killed writer left behind.
+var zzHalfWritten string
 
 // zzBigDef: "cbytes:N:" — natively the text with the model's N, in the engine a
 // key whose parse-table entry carries the symbolic N.
